@@ -490,6 +490,12 @@ def render_crate(types, methods):
     L.append("    #[diplomat::opaque]\n    pub struct Op(pub u32);")
     L.append("    impl Op {\n        pub fn new(id: u32) -> Box<Op> { Box::new(Op(id)) }\n        pub fn id(&self) -> u32 { self.0 }\n"
              "        #[diplomat::attr(supports = comparators, comparison)]\n        pub fn compare(&self, other: &Op) -> core::cmp::Ordering { self.0.cmp(&other.0) }\n    }")
+    # an iterable: C++ wraps the `next()` protocol in an input-iterator adapter (begin()/end(), operator++ / * / !=)
+    L.append("    #[diplomat::opaque]\n    #[diplomat::attr(not(supports = iterators), disable)]\n    pub struct ItList(pub Vec<u32>);")
+    L.append("    #[diplomat::opaque]\n    #[diplomat::attr(not(supports = iterators), disable)]\n    pub struct ItIter<'a>(pub core::slice::Iter<'a, u32>);")
+    L.append("    impl ItList {\n        pub fn make(n: u32) -> Box<ItList> { Box::new(ItList((1..=n).map(|k| k * 10).collect())) }\n"
+             "        #[diplomat::attr(auto, iterable)]\n        pub fn iter<'a>(&'a self) -> Box<ItIter<'a>> { Box::new(ItIter(self.0.iter())) }\n    }")
+    L.append("    impl<'a> ItIter<'a> {\n        #[diplomat::attr(auto, iterator)]\n        pub fn next(&mut self) -> Option<u32> { self.0.next().copied() }\n    }")
     # arithmetic special methods on a non-opaque type: C++ derives the compound operators (`-=` ...) from them
     L.append("    #[diplomat::attr(not(supports = arithmetic), disable)]\n    pub struct Ar { pub x: i32, pub y: i32 }")
     L.append("    impl Ar {\n        #[diplomat::attr(auto, add)]\n        pub fn add(self, o: Self) -> Self { Ar { x: self.x + o.x, y: self.y + o.y } }\n"
@@ -909,6 +915,11 @@ def ar_expected():
     return out
 
 
+def it_expected():
+    """every way of walking a 4-element iterable through the C++ adapter must see Rust's sequence 10, 20, 30, 40"""
+    return ["IT rangefor=10,20,30,40,", "IT skipfirst=20,30,40,", "IT incr-then-deref=20", "IT incr2-then-deref=30", "IT look-then-step=10,20", "IT empty=0", "IT one=10,"]
+
+
 def cmp_expected():
     out = []
     for x, y in ((1, 1), (1, 2), (2, 1), (0, 4000000000)):
@@ -1014,6 +1025,15 @@ def render_cpp_drivers(types, methods, headers, nshards=16):
     # the comparison special method: all six operators over ordered / equal / reversed pairs
     L.append("static void cmp_block() { for (auto [x, y] : {std::pair<uint32_t, uint32_t>{1, 1}, {1, 2}, {2, 1}, {0, 4000000000u}}) { auto a = Op::new_(x); auto b = Op::new_(y);"
              ' printf("CMP %u %u eq=%d ne=%d lt=%d le=%d gt=%d ge=%d\\n", x, y, (int)(*a == *b), (int)(*a != *b), (int)(*a < *b), (int)(*a <= *b), (int)(*a > *b), (int)(*a >= *b)); } }')
+    L.append("static void it_block() {")
+    L.append('    auto l = ItList::make(4); printf("IT rangefor="); for (auto v : *l) printf("%u,", v); printf("\\n");')
+    L.append('    { auto it = l->begin(); ++it; printf("IT skipfirst="); for (; it != l->end(); ++it) printf("%u,", *it); printf("\\n"); }')
+    L.append('    { auto it = l->begin(); ++it; printf("IT incr-then-deref=%u\\n", *it); }')
+    L.append('    { auto it = l->begin(); ++it; ++it; printf("IT incr2-then-deref=%u\\n", *it); }')
+    L.append('    { auto it = l->begin(); uint32_t a = *it; ++it; uint32_t b = *it; printf("IT look-then-step=%u,%u\\n", a, b); }')
+    L.append('    { auto e = ItList::make(0); int n = 0; for (auto v : *e) { (void)v; n++; } printf("IT empty=%d\\n", n); }')
+    L.append('    { auto o = ItList::make(1); printf("IT one="); for (auto v : *o) printf("%u,", v); printf("\\n"); }')
+    L.append("}")
     L.append("static void ar_block() {")
     for (ax, ay), (bx, by) in AR_PAIRS:
         L.append("    { Ar a{%d, %d}; Ar b{%d, %d}; Ar s = a + b, d = a - b, m = a * b, q = a / b; Ar c1 = a; c1 += b; Ar c2 = a; c2 -= b; Ar c3 = a; c3 *= b; Ar c4 = a; c4 /= b;" % (ax, ay, bx, by))
@@ -1029,6 +1049,7 @@ def render_cpp_drivers(types, methods, headers, nshards=16):
         L.append("    utf8_%d_%d();" % (m["i"], k))
     L.append("    cmp_block();")
     L.append("    ar_block();")
+    L.append("    it_block();")
     L.append('    printf("DONE\\n");\n    return 0;\n}')
     shards.append("\n".join(L) + "\n")
     order = []
